@@ -23,7 +23,8 @@ BATCH_SIZE = {'quick': 2, 'thorough': 6}
 REQUIRED_COUNTERS = ['tables_checked', 'parents_checked',
                      'pairs_coverage_checked', 'pairs_short_of_target',
                      'pairs_without_markers', 'differential_runs',
-                     'pipeline_tables_checked', 'override_runs']
+                     'pipeline_tables_checked', 'override_runs',
+                     'override_names_parent_without_pairs']
 RULE = ('case = reference-marker table (synthesised from random up / down '
         'tables: dense, sparse, pairs with no marker, pairs short of the '
         'target in one or both directions; or produced by the pipeline) x '
@@ -44,7 +45,9 @@ def gen_cases(tier, seed):
     cases = []
     for i in range(n):
         cases.append({'seed': int(rng.integers(2 ** 31)),
-                      'source': 'pipeline' if i % 8 == 7 else 'synthetic'})
+                      'source': 'pipeline' if i % 8 == 7 else 'synthetic',
+                      'override_mode': ('moot-parents' if i % 4 == 1
+                                        else None)})
     return cases
 
 
@@ -267,7 +270,27 @@ def run_case(spec, work):
     parents = model.all_parents()
     override = None
     targets = {'default': target}
-    if rng.random() < 0.4:
+    mode = spec.get('override_mode')
+    if mode == 'moot-parents':
+        # "override every <level> node": the dict also names parents with
+        # nothing to discriminate (their entry is moot), with a target far
+        # from the default one
+        moot = [p for p in parents if p is not None and
+                not model_pairs(model, p)]
+        real = [p for p in parents if p is not None and
+                model_pairs(model, p)]
+        if moot:
+            target = int(rng.choice([5, 8, 15]))
+            targets = {'default': target}
+            override = {tuple(p): 1 for p in moot}
+            if real and rng.random() < 0.5:
+                p = real[int(rng.integers(len(real)))]
+                t2 = int(rng.integers(1, 16))
+                override[tuple(p)] = t2
+                targets[tuple(p)] = t2
+            ctx.bump('override_runs')
+            ctx.bump('override_names_parent_without_pairs')
+    elif rng.random() < 0.4:
         cand = [p for p in parents if p is not None and
                 model_pairs(model, p)]
         if cand:
